@@ -4,8 +4,10 @@ import (
 	"errors"
 	"fmt"
 	"os"
+	"reflect"
 	"strings"
 	"time"
+	"unsafe"
 
 	"github.com/rs/zerolog"
 	"github.com/rs/zerolog/diode"
@@ -66,9 +68,10 @@ type inst struct {
 	closeCalledStep int
 	wcalls          int
 	mon             uint64
-	deliveredB      []string // second diode writer of the fatal2 scenarios
-	called          int      // Writes called so far
-	maxOut          int      // largest number of messages ever outstanding (written, delivery not begun)
+	deliveredB      []string   // second diode writer of the fatal2 scenarios
+	called          int        // Writes called so far
+	remaining       func() int // messages still sitting in the ring (read from the diode's internals; -1 if not recognised)
+	maxOut          int        // largest number of messages ever outstanding (written, delivery not begun)
 }
 
 type recWriterB struct{ in *inst }
@@ -81,7 +84,13 @@ func (r recWriterB) Write(b []byte) (int, error) {
 }
 
 func msgOf(p, w int) string {
-	return fmt.Sprintf("p%dw%d-%s\n", p, w, strings.Repeat(string(rune('a'+p*4+w)), 3))
+	m := fmt.Sprintf("p%dw%d-%s\n", p, w, strings.Repeat(string(rune('a'+p*4+w)), 3))
+	if (p+2*w)%3 == 1 {
+		// every third message is exactly as long as the capacity of a fresh pooled copy buffer (500 bytes): a
+		// length on which "did the copy fit / was it reallocated" decisions flip
+		m = m[:len(m)-1] + strings.Repeat(string(rune('A'+p*4+w)), 500-len(m)) + "\n"
+	}
+	return m
 }
 
 type recWriter struct{ in *inst }
@@ -150,6 +159,7 @@ func (in *inst) Body() {
 		alerter = nil
 	}
 	dw := diode.NewWriter(recWriter{in}, p.N, interval, alerter)
+	in.remaining = func() int { return ringRemaining(&dw) }
 	mcrt.DaemonNext = false
 	var logger zerolog.Logger
 	if p.End == "fatal" {
@@ -445,6 +455,13 @@ func (in *inst) Check(res *mcrt.Result) []explore.Violation {
 	if p.End == "fatal2" && res.Exited && len(in.deliveredB) != 1 {
 		add("C11", "", "Fatal through MultiLevelWriter(diodeA, diodeB): the second diode delivered %d events before exit, want the fatal event (1)", len(in.deliveredB))
 	}
+	// Close racing with the Writes: the accounting clause does not apply, but conservation does - a message that
+	// was published into a ring that never overflowed is delivered, or still sits in the ring; it cannot vanish
+	if closed && !blockedRec && p.End == "closeearly" && in.maxOut <= p.N && collisions == 0 && in.remaining != nil {
+		if rem := in.remaining(); rem >= 0 && len(in.delivered)+sumAlerts+rem < len(in.written) {
+			add("C11", "", "a message vanished: written=%d delivered=%d alerts=%v still in the ring=%d (Close raced with the Writes; the ring of %d never overflowed)", len(in.written), len(in.delivered), in.alerts, rem, p.N)
+		}
+	}
 	if closed && !blockedRec && p.End != "closeearly" { // (the accounting clause is about a Close called after the last Write returned)
 		if len(in.delivered)+sumAlerts < len(in.written) {
 			add("C11", holeSig, "lost silently: written=%d delivered=%d alerts=%v collisions=%d (read index %d, hole there=%v, %d published messages behind it)",
@@ -516,3 +533,43 @@ func factory(name string) *explore.Scenario {
 }
 
 var _ = os.Exit
+
+// ringRemaining counts the buckets still held by the diode's ring, reading the unexported fields
+// Writer.d -> (*Waiter | *Poller).Diode -> *ManyToOne.buffer; -1 if that layout is not found (a refactoring
+// of the internals then switches this oracle off instead of breaking the check).
+func ringRemaining(dw *diode.Writer) (n int) {
+	defer func() {
+		if recover() != nil {
+			n = -1
+		}
+	}()
+	v := reflect.ValueOf(dw).Elem().FieldByName("d")
+	if !v.IsValid() {
+		return -1
+	}
+	v = reflect.NewAt(v.Type(), unsafe.Pointer(v.UnsafeAddr())).Elem() // readable copy of the unexported field
+	v = v.Elem()                                                       // *Waiter / *Poller
+	if v.Kind() == reflect.Ptr {
+		v = v.Elem()
+	}
+	d := v.FieldByName("Diode")
+	if !d.IsValid() {
+		return -1
+	}
+	d = d.Elem() // *ManyToOne
+	if d.Kind() == reflect.Ptr {
+		d = d.Elem()
+	}
+	buf := d.FieldByName("buffer")
+	if !buf.IsValid() || buf.Kind() != reflect.Slice {
+		return -1
+	}
+	for i := 0; i < buf.Len(); i++ {
+		e := buf.Index(i)
+		p := *(*unsafe.Pointer)(unsafe.Pointer(e.UnsafeAddr()))
+		if p != nil {
+			n++
+		}
+	}
+	return n
+}
